@@ -5,6 +5,7 @@ ALL = ["C%02d" % i for i in range(1, 21)]
 technique = "bounded symbolic execution of the real go/ssa of /repo (own engine gosym) with SMT (z3 5.1.0) deciding every assertion / panic / branch over all inputs within the stated bounds; counterexamples replayed natively against the real build"
 level_note = "trusted: go/packages+go/ssa faithful to the compiler; the gosym interpreter and its intrinsics (listed in the evidence); z3; per-property stubs listed in the evidence; bounds as stated in evidence.coverage.bounds"
 claimed = {
+ "C20": "glue level: NewWatcher's include/exclude loop with the whole pattern x path match relation symbolic (observed paths == included and not excluded, decided per path for all relations), and the event filter + handler (real handle, real TaskRunner) for every subscribed subset and symbolic event types: an unsubscribed event runs nothing, the handler returns (no deadlock). One open known finding: a subscribed event does not run the task because the handler's Cancel leaves the runner cancelled for good",
  "C15": "panic reachability in taskctl's own loading code (Loader.load import handling, buildFromDefinition, buildTask, buildContext, buildPipeline, buildWatcher, utils.ReadEnvFile) over the shapes a parser can hand it: 10 shapes of the `import` value, 10 odd definitions (null entries, unreadable env_file, dir on a pipeline stage, neither/both of task and pipeline, empty sections), and all pairs of 7 env-file line shapes; any reachable nil dereference, failed type assertion or index out of range is a violation. The parsers themselves are outside (stated)",
  "C18": "real buildFromDefinition / buildPipeline / graph over definitions with two pipelines, three stages and a watcher whose task / pipeline / name / depends_on references are symbolic over universes containing unknown names and the pipelines themselves: an accepted configuration has every reference resolved, unique stage names and no inclusion cycle; accepted pipelines are then run by the real scheduler (thread mode) without abort or livelock",
  "C17": "real Loader.load / loadDir over 2-3 (thorough 4) files in two directories with symbolic import lists (files, a directory, a missing name; self / mutual / repeated imports), symbolic exists / parses per file, file system and parser stubbed: terminates, every reachable file is read exactly once and merged, relative imports resolve against the importing file's directory, and a missing or unparsable file in the closure makes the load fail",
